@@ -61,7 +61,7 @@ def run(ctx: Ctx) -> None:
     else:
         types = ["int", "i32", "str", "float", "bool", "bytes", "list_int", "dc", "enum", "dict", "fset", "list_dc", "list_opt",
                  "newtype", "dc0", "ann_int", "batch"]
-        types2, rets = ["int", "str", "dc", "enum"], ["int", "i32", "str", "bytes", "list_int", "enum", "batch"]
+        types2, rets = ["int", "dc", "enum"], ["int", "i32", "str", "list_int", "enum", "batch"]
     consts = {"Types": S(types), "Types2": S(types2), "RetTypes": S(rets)}
     invs = ["RelevantChangesPayload", "IrrelevantKeepsPayload", "EitherKeepsPayload", "EditChangesSomething", "EditedWellFormed"]
     cases = enumerate_families(ctx, "data", "Describe", ["\\E d \\in BaseDefs : c \\in CasesOf(d)"], constants=consts,
